@@ -109,6 +109,15 @@ class Layout:
         for p, t in self.files.items():
             os.makedirs(os.path.dirname(os.path.join(root, p)), exist_ok=True)
             open(os.path.join(root, p), "w").write(t)
+        # what is NOT a QML component of a directory: files with another or no extension, and a DIRECTORY named like a component
+        for i, d in enumerate(self.dirs):
+            if self.rng.random() < 0.5:
+                dd = os.path.join(root, d)
+                os.makedirs(dd, exist_ok=True)
+                for name, text in (("notes.txt", "this is { not qml\n"), ("Old.qml.bak", "QWidget {{{\n"), ("README", "import import\n"), ("Stale.qml~", "}\n")):
+                    with open(os.path.join(dd, name), "w") as f:
+                        f.write(text)
+                os.makedirs(os.path.join(dd, "Folder%d.qml" % i), exist_ok=True)
 
     def graph(self):
         g = []
@@ -168,6 +177,13 @@ def run(ctx):
         if bad:
             ctx.violation("discovery/translation does not terminate normally on this layout: %s" % str(bad[0])[:300], dict(rep, impl_output=str(bad[0])[:1000],
                           theorem_or_correspondence="C18_discovery_terminates / S"))
+            continue
+        # only the .qml files of the layout are components: nothing else in the directories may be read (and diagnosed) as one
+        known = {os.path.normpath(os.path.join(work, "p%d" % i, f)) for f in lay.files}
+        stray = sorted({pd["path"] for _, r in runs for pd in r.get("project_diags", []) if os.path.normpath(pd["path"]) not in known})
+        if stray:
+            ctx.violation("directory entries that are not QML files were read as components: %s" % [os.path.basename(x) for x in stray][:4],
+                          dict(rep, impl_output=stray, theorem_or_correspondence="S: components of a directory = its *.qml files"))
             continue
         # order independence, per source
         ref = {d["source"]: (d.get("ui"), tuple(sorted((x["msg"], x["start"], x["end"]) for x in d.get("diags", [])))) for d in runs[0][1]["docs"]}
